@@ -1018,10 +1018,14 @@ impl TransactionBuilder {
         change_config: &ChangeConfig,
         collateral_percentage: &BigNum,
     ) -> Result<(), JsError> {
-        let mut total_collateral = Value::zero();
-        for collateral_input in self.collateral.iter() {
-            total_collateral = total_collateral.checked_add(&collateral_input.amount)?;
-        }
+        let total_collateral = match self.collateral.total_value() {
+            Ok(total_collateral) => total_collateral,
+            Err(e) => {
+                self.remove_collateral_return();
+                self.remove_total_collateral();
+                return Err(e);
+            }
+        };
 
         //set fake max total collateral and return
         self.set_total_collateral(&total_collateral.coin());
